@@ -1,5 +1,6 @@
 import TTModel.Proto
 import TTModel.C08_Coalescent
+import TTModel.C08_Linear
 /-!
 C08 driver.  Request: `<op> <F|Q> <numbers> | <numbers> | <numbers>`  (groups separated by `|`).
 `F`: numbers are 16-hex-digit IEEE bit patterns, the model runs at `Float`;
@@ -12,6 +13,7 @@ C08 driver.  Request: `<op> <F|Q> <numbers> | <numbers> | <numbers>`  (groups se
   skyride F thetas | heights                  skyrideI X thetas | heights
   skygrid F thetas | heights | grid           skygridI X thetas | heights | grid
   exp     F theta g | heights
+  linear  F thetas | heights | grid          (PiecewiseLinearCoalescentGrid; `linearpops`: sizes per sorted event)
 -/
 open TT TT.Proto TT.C08
 
@@ -48,6 +50,12 @@ def handleF (op : String) (g : List (List Float)) : Option String :=
   | "skygrid", [θ, h, grid] => if oddLen h then some (floatBits (skygridLogProb θ grid h)) else none
   | "skygridI", [θ, h, grid] => if oddLen h then some (floatBits (skygridIntegral θ grid h)) else none
   | "exp", [[θ, gr], h] => if oddLen h then some (floatBits (exponentialLogProb θ gr h)) else none
+  | "linear", [θ, h, grid] =>
+      if oddLen h && θ.length == grid.length + 1 then some (floatBits (linearLogProb θ grid h)) else none
+  | "linearpops", [θ, h, grid] =>
+      if oddLen h && θ.length == grid.length + 1 then
+        some (" ".intercalate ((popSizes θ grid (linearSorted h grid)).map floatBits))
+      else none
   | _, _ => none
 
 def handleQ (op : String) (g : List (List Rat)) : Option String :=
